@@ -256,7 +256,7 @@ fn run_one(u: &Universe, a: &RefState, real_a: &WarpState, ops: Vec<WarpOp>) -> 
         Ok(Err(e)) => return (Err(error_variant(&e)), None, false),
         Ok(Ok(())) => {}
     }
-    let post = match u.coherent(&live) {
+    let post = match safe_coherent(u, &live) {
         Ok(p) => p,
         Err(msg) => {
             return (
@@ -268,7 +268,16 @@ fn run_one(u: &Universe, a: &RefState, real_a: &WarpState, ops: Vec<WarpOp>) -> 
     };
     // step 2: the emitted patch (commit_with_receipt) and its replay on the pre-state
     let rk = u.root_key(a);
-    let root_post = hooks::snapshot::state_root(&live, &rk);
+    let root_post = match safe_root(&live, &rk) {
+        Ok(x) => x,
+        Err(p) => {
+            return (
+                Ok(Verdict::Bad(vec![format!("tick:live-state-root-panics:{}", p.chars().take(60).collect::<String>())], false)),
+                Some(post),
+                false,
+            )
+        }
+    };
     let emitted = match mc::catch(|| hooks::tick_patch::diff_state(real_a, &live)) {
         Ok(o) => patch_of(o),
         Err(p) => {
@@ -492,8 +501,8 @@ fn tick_detail(uni: &Uni, si: usize, ops: &[WarpOp]) -> Value {
     let live_patch = patch_of(ops.to_vec());
     let mut live = real_a.clone();
     let live_res = mc::catch(|| live_patch.apply_to_state(&mut live));
-    let post = uni.u.read(&live).ok();
-    let emitted = patch_of(hooks::tick_patch::diff_state(&real_a, &live));
+    let post = mc::catch(|| uni.u.read(&live)).ok().and_then(|x| x.ok());
+    let emitted = patch_of(mc::catch(|| hooks::tick_patch::diff_state(&real_a, &live)).unwrap_or_default());
     let mut replay = real_a.clone();
     let rep = mc::catch(|| emitted.apply_to_state(&mut replay));
     let rk = uni.u.root_key(a);
@@ -503,11 +512,11 @@ fn tick_detail(uni: &Uni, si: usize, ops: &[WarpOp]) -> Value {
         "tick_ops": live_patch.ops().iter().map(|o| short(&uni.u, o)).collect::<Vec<_>>(),
         "live_apply": format!("{live_res:?}"),
         "post": post.as_ref().map(|p| p.to_json()),
-        "post_state_root": mc::hex(&hooks::snapshot::state_root(&live, &rk)),
+        "post_state_root": safe_root(&live, &rk).map(|x| mc::hex(&x)).unwrap_or_else(|p| format!("panics: {p}")),
         "emitted_patch_ops": emitted.ops().iter().map(|o| short(&uni.u, o)).collect::<Vec<_>>(),
         "replay_on_pre": format!("{rep:?}"),
-        "replayed": uni.u.read(&replay).ok().map(|p| p.to_json()),
-        "replayed_state_root": mc::hex(&hooks::snapshot::state_root(&replay, &rk)),
+        "replayed": mc::catch(|| uni.u.read(&replay)).ok().and_then(|x| x.ok()).map(|p| p.to_json()),
+        "replayed_state_root": safe_root(&replay, &rk).map(|x| mc::hex(&x)).unwrap_or_else(|p| format!("panics: {p}")),
     })
 }
 
